@@ -21,6 +21,7 @@ func C02(c *Ctx) {
 	r.Rule("C02-b", "parseAndCodeExpr / parseNotCodeExpr / parseStateCodeExpr: before run(p), cur.pos is assigned the current position and cur.text an empty slice on every path")
 	r.Rule("C02-c", "who-may-write: position.{line,col,offset} and savepoint.{rn,w} only in read(); parser.pt only in restore(); parser.data nowhere; no address of these is taken; savepoint/position composite literals only in newParser; read(): offset += w; DecodeRune(data[offset:]); store rn,w; col++; newline => line++, col = 0")
 	r.Rule("C02-d", "for each kind with children: scope depth (pushArgsSet nesting) at which builder.writeExprCode visits a child equals the variable-stack depth (pushV nesting) at which the runtime evaluates it; labels are added to the enclosing scope on both sides; stubs read p.vstack[len(p.vstack)-1]")
+	r.Rule("C02-f", "the matchers call read() only under a not-at-end-of-input test (C01-e under this property): a read at end of input advances the column without advancing the offset, and no restore undoes it")
 	r.Rule("C02-e", "parseAndCodeExpr returns (nil, b) and parseNotCodeExpr (nil, !b) with b the block's boolean; neither calls read/restore or an evaluator")
 
 	abs := c.allAbs()
@@ -32,6 +33,7 @@ func C02(c *Ctx) {
 		c02c(c, a.V)
 		c02dRuntime(c, a, gDepth)
 		c02e(c, a)
+		c01e2(c, a, "C02-f", "at end of input read() consumes nothing but still counts a column, and restore() does nothing when the offset is unchanged: the column an action sees at that offset then depends on how many attempts failed there before")
 	}
 	r.MinRule("C02-d", 8)
 }
